@@ -286,6 +286,17 @@ ResetLivelockSig ==
                SumFrom(q) == IF q > Len(ll) THEN 0 ELSE ll[q].sz + SumFrom(q + 1)
            IN IF UseBatch THEN SumFrom(p0) > BatchBytes ELSE Len(ll) - p0 + 1 >= 2
 
+HoldsLogS(lg, e) == (\E k \in 1..Len(lg) : lg[k] = e) \/ (lg # <<>> /\ e.idx < lg[1].idx)
+(* C04 (premise of the commit rule): what a leader believes a follower stores, the follower stores - as long as the     *)
+(* follower has not moved on to a later term (then the leader is deposed and its beliefs no longer count)                *)
+MatchIndexIsTruthS ==
+  \A l \in Nodes : (Live(l) /\ node[l].role = "L" /\ node[l].log # <<>>) =>
+     \A f \in DOMAIN node[l].matchIdx \cap Nodes :
+        (Live(f) /\ ~node[f].needLoad /\ node[f].log # <<>> /\ node[f].term <= node[l].term /\ node[l].matchIdx[f] > 0) =>
+           LET m == node[l].matchIdx[f] IN
+           /\ m <= Last(node[l].log).idx
+           /\ (m < node[l].log[1].idx \/ HoldsLogS(node[f].log, node[l].log[m - node[l].log[1].idx + 1]))
+
 StateViolations ==
      (IF ApplyAgreement THEN {} ELSE {"C01.ApplyAgreement"})
 \cup (IF StateIsPrefixFold THEN {} ELSE {"C01.StateIsPrefixFold"})
@@ -299,6 +310,7 @@ StateViolations ==
 \cup (IF CommittedStable THEN {} ELSE {"C04.CommittedStable"})
 \cup (IF LogContiguous THEN (IF LogMatching THEN {} ELSE {"C04.LogMatching"}) ELSE {"C04.LogContiguous"})
 \cup (IF CommittedNotBeyondLog THEN {} ELSE {"C04.AppliedWithinCommit"})
+\cup (IF MatchIndexIsTruthS THEN {} ELSE {"C04.MatchIndexIsTruth"})
 \cup (IF NoEscape THEN {} ELSE {"C12.NoEscape"})
 \cup (IF SameMethodEverywhere THEN {} ELSE {"C17.SameMethodEverywhere"})
 \cup (IF CallUsesEnabledVersion THEN {} ELSE {"C17.CallUsesEnabledVersion"})
